@@ -21,7 +21,7 @@ import (
 )
 
 func TestVerifC22Etcd(t *testing.T) {
-	rep := vNewReport("C22", "two-topic scenarios on the real InMemoryStore and EtcdStore (embedded etcd): accepted names, mostly one a strict string prefix of the other (base a/orders/t1/A.b/x-y/0 + suffix -b .b _1 0 -v2 .dlq a - _ . 1 -0 .config -partitions, either one being the one operated on, also siblings and unrelated names), 1-5 partitions each, next offsets, config, committed offsets of 1-2 groups on both; then 1-4 operations on one topic (DeleteTopic first in 60%), each followed by a full read-back of the other; non-trivial = both topics were created and a DeleteTopic succeeded; distinct = distinct scenario")
+	rep := vNewReport("C22", "two-topic scenarios on the real InMemoryStore and EtcdStore (embedded etcd): accepted names, mostly one a strict string prefix of the other (base a/orders/t1/A.b/x-y/0 + suffix -b .b _1 0 -v2 .dlq a - _ . 1 -0 .config -partitions, either one being the one operated on, also siblings and unrelated names), 1-5 partitions each (read back 0..2), next offsets, config, committed offsets of 1-2 groups on both; then 1-3 operations on one topic (DeleteTopic first in 60%), each followed by a full read-back of the other; non-trivial = both topics were created and a DeleteTopic succeeded; distinct = distinct scenario")
 	e := msStartEtcd(t)
 	var coq, jsons []string
 	runOne := func(sc msScenario) {
